@@ -464,10 +464,10 @@ func (se *SpecEnv) callSpec(c *ast.CallExpr) Value {
 		save := se.inOld
 		se.inOld = true
 		r := se.eval(c.Args[0])
-		// force evaluation of lvalues to rvalues in the old state
-		switch p := r.(type) {
-		case *PtrV:
-			_ = p
+		// lvalues are read in the old state
+		switch r.(type) {
+		case *PtrV, *ArrPtrV:
+			r = se.deref(r)
 		}
 		se.inOld = save
 		return r
@@ -532,6 +532,13 @@ func (se *SpecEnv) callSpec(c *ast.CallExpr) Value {
 			return F.Forall(bn, F.Imp(rng, body))
 		}
 		return F.Exists(bn, F.And(rng, body))
+	case "valw": // valw(w, t0, t1, ...): little-endian value of explicit w-bit words
+		w := targ(0)
+		var sum []*Term
+		for i := 1; i < len(c.Args); i++ {
+			sum = append(sum, F.Mul(targ(i), F.Int(pow2(int(w.K.Int64())*(i-1)))))
+		}
+		return F.Add(sum...)
 	case "be", "le": // big/little-endian value of a byte array or slice window of constant length
 		return se.bytesVal(arg(0), name == "be")
 	case "same": // same(a, b): pointer identity
